@@ -8,3 +8,9 @@ package css_parser
 func VerifCompactHex(v uint32) uint32          { return compactHex(v) }
 func VerifExpandHex(v uint32) uint32           { return expandHex(v) }
 func VerifParseHex(text string) (uint32, bool) { return parseHex(text) }
+
+func VerifMangleNumber(t string) (string, bool)               { return mangleNumber(t) }
+func VerifShiftDot(text string, dotOffset int) (string, bool) { return shiftDot(text, dotOffset) }
+func VerifMangleDimension(value string, unit string) (string, string, bool) {
+	return mangleDimension(value, unit)
+}
